@@ -702,7 +702,7 @@ theorem serve_get (f : File) (r : Req) (he : early304 f r = false) (hh : r.head 
       serve f r = match planContent f r with
         | .final resp => resp
         | .send st cr start n =>
-          { status := st, contentRange := cr, contentLength := some n, lastModified := f.modSec != 0,
+          { status := st, contentRange := cr, contentLength := some n, lastModified := hasMod f,
             etag := f.etag, body := readAt f.content (if seekable then start else pos0) n } := by
   have hto : ∀ w ∈ ws, w.from < 0 → w.to = none := by
     unfold parseRangeWL at hw
@@ -724,6 +724,18 @@ theorem serve_get (f : File) (r : Req) (he : early304 f r = false) (hh : r.head 
     unfold serve serveWith
     simp only [he, hh, hw, hp1, Bool.false_eq_true, ↓reduceIte, Bool.true_and]
     cases planContent f r <;> rfl
+
+/-- HEAD, spelled out (the Range header passed the syntax check) -/
+theorem serve_head (f : File) (r : Req) (he : early304 f r = false) (hh : r.head = true)
+    (ws : List ByteRange) (hw : parseRangeWL r.range = some ws) :
+    serve f r = match planContent f r with
+      | .final resp => resp
+      | .send st cr _ n =>
+        { status := st, contentRange := cr, contentLength := some n, lastModified := hasMod f, etag := f.etag } := by
+  unfold early304 at he
+  unfold serve serveWith
+  simp only [he, hh, hw, Option.isNone_some, Bool.and_false, Bool.false_eq_true, ↓reduceIte]
+  cases planContent f r <;> rfl
 
 theorem parseRange_head {s : Bytes} {size : Int} {rs : List HRange} {ra : HRange}
     (h : parseRange s size = .ok rs) (hh : rs.head? = some ra) :
@@ -749,42 +761,32 @@ theorem parseRange_head {s : Bytes} {size : Int} {rs : List HRange} {ra : HRange
 
 theorem serve_cases (f : File) (r : Req) :
     (early304 f r = true ∧ (serve f r).status = 304) ∨
-    (early304 f r = false ∧ r.head = false ∧ parseRangeWL r.range = none ∧ serve f r = { status := 400 }) ∨
-    (early304 f r = false ∧ (r.head = true ∨ ∃ ws, parseRangeWL r.range = some ws) ∧
+    (early304 f r = false ∧ parseRangeWL r.range = none ∧ serve f r = { status := 400 }) ∨
+    (early304 f r = false ∧ (∃ ws, parseRangeWL r.range = some ws) ∧
       ((∃ resp, planContent f r = .final resp ∧ serve f r = resp) ∨
        (∃ st cr start n, planContent f r = .send st cr start n ∧ (serve f r).status = st ∧
           (serve f r).contentRange = cr ∧ (serve f r).contentLength = some n))) := by
   cases he : early304 f r
   · right
-    cases hh : r.head
-    · cases hw : parseRangeWL r.range with
-      | none =>
-        left
-        refine ⟨rfl, rfl, rfl, ?_⟩
-        unfold early304 at he
-        unfold serve serveWith
-        simp only [he, hh, hw, Bool.false_eq_true, ↓reduceIte]
-      | some ws =>
-        right
-        refine ⟨rfl, Or.inr ⟨ws, rfl⟩, ?_⟩
-        obtain ⟨sk, pos0, _, hs⟩ := serve_get f r he hh ws hw
+    cases hw : parseRangeWL r.range with
+    | none =>
+      left
+      refine ⟨rfl, rfl, ?_⟩
+      unfold early304 at he
+      unfold serve serveWith
+      cases hh : r.head <;> simp [he, hh, hw]
+    | some ws =>
+      right
+      refine ⟨rfl, ⟨ws, rfl⟩, ?_⟩
+      cases hh : r.head
+      · obtain ⟨sk, pos0, _, hs⟩ := serve_get f r he hh ws hw
         cases hp : planContent f r with
         | final resp => left; rw [hp] at hs; exact ⟨resp, rfl, hs⟩
         | send st cr start n => right; rw [hp] at hs; exact ⟨st, cr, start, n, rfl, by rw [hs], by rw [hs], by rw [hs]⟩
-    · right
-      refine ⟨rfl, Or.inl rfl, ?_⟩
-      have hs : serve f r = match planContent f r with
-          | .final resp => resp
-          | .send st cr _ n =>
-            { status := st, contentRange := cr, contentLength := some n, lastModified := f.modSec != 0,
-              etag := f.etag } := by
-        unfold early304 at he
-        unfold serve serveWith
-        simp only [he, hh, Bool.false_eq_true, ↓reduceIte]
-        cases planContent f r <;> rfl
-      cases hp : planContent f r with
-      | final resp => left; rw [hp] at hs; exact ⟨resp, rfl, hs⟩
-      | send st cr start n => right; rw [hp] at hs; exact ⟨st, cr, start, n, rfl, by rw [hs], by rw [hs], by rw [hs]⟩
+      · have hs := serve_head f r he hh ws hw
+        cases hp : planContent f r with
+        | final resp => left; rw [hp] at hs; exact ⟨resp, rfl, hs⟩
+        | send st cr start n => right; rw [hp] at hs; exact ⟨st, cr, start, n, rfl, by rw [hs], by rw [hs], by rw [hs]⟩
   · left
     refine ⟨rfl, ?_⟩
     unfold early304 at he
